@@ -16,6 +16,10 @@ func emitBoundReports(p *Program, r *Result, ba *boundAnalysis, rule string, sup
 		fname := funcName(sr.fn)
 		construct := fmt.Sprintf("%s(%s) <- %s", sr.kind, sr.target, valueLabel(sr.operand))
 		pos := p.pos(sr.instr.Pos())
+		if sr.ok && sr.hyp {
+			r.held(rule, fname, construct, pos, "operand is a parameter: every call site passes a value that is bounded or not input-derived")
+			continue
+		}
 		if sr.ok {
 			r.held(rule, fname, construct, pos, "input-derived ("+sr.origin+"); an upper-bound check or validating call precedes it on every path")
 			continue
